@@ -724,9 +724,11 @@ def run_c08(pid, tier, rep, deadline_s):
 def run_c05(pid, tier, rep, deadline_s):
     q = tier == 'quick'
     run_gram(pid, tier, rep, deadline_s); cov = dict(rep.coverage)
-    totals, samples, bounds, extra = run_progs(pid, rep, [objects_spec('rules', q), dict(name='c05d', src='c05_dsl.cpp', args=[6 if q else 8], compilers=['g++'] if q else ['g++', 'clang++'], label='DSL spellings of an explicit rule precedence ([n] before/after >= and >>=, explicit precedences on binary rules, negative value) x inputs<=%d over {2,-,*,space}' % (6 if q else 8))], deadline_s)
+    totals, samples, bounds, extra = run_progs(pid, rep, [objects_spec('rules', q), CTORS_SPEC, dict(name='c05d', src='c05_dsl.cpp', args=[6 if q else 8], compilers=['g++'] if q else ['g++', 'clang++'], label='DSL spellings of an explicit rule precedence ([n] before/after >= and >>=, explicit precedences on binary rules, negative value) x inputs<=%d over {2,-,*,space}' % (6 if q else 8))], deadline_s)
     rep.coverage = merge_cov(cov, {'states': totals['cases'], 'transitions': totals['checks'], 'traces_validated_against_impl': totals['cases'], 'samples': samples, 'evaluations': totals['cases'], 'distinct_nontrivial': extra.get('accepted', 0), 'bounds': bounds,
                                    'exhaustive': all(b['completed'] for b in bounds), 'rule': 'Compiled part: one operator grammar written with the explicit rule precedence attached before and after a >= functor and before and after a >>= functor (parsed through context_parse), with the prefix rule at three levels, and with explicit precedences (one negative) on the binary rules; the grouping of every input up to the bound must equal that of an independent precedence-climbing parser built from the declared levels.'})
+
+CTORS_SPEC = dict(name='c05c', src='c05_ctors.cpp', label='every constructor spelling of char / string / regex / typed / custom terms: precedence, associativity and display name given are the ones the term has, the ones that decide a grouping, the name in messages (34 spellings)')
 
 def objects_spec(part, q):
     return dict(name='c07o_' + part, src='c07_objects.cpp', args=[4 if q else 6, part], compilers=['g++'] if q else ['g++', 'clang++'],
@@ -755,7 +757,7 @@ def run_c11(pid, tier, rep, deadline_s):
 
 def run_c18(pid, tier, rep, deadline_s):
     run_gram(pid, tier, rep, deadline_s); cov = dict(rep.coverage)
-    totals, samples, bounds, extra = run_progs(pid, rep, [dict(name='c18l', src='c18_long.cpp', label='custom lexer with 5 terms answering lengths 1..200000 (one-dimensional sweep): slices, positions and match() requests'),
+    totals, samples, bounds, extra = run_progs(pid, rep, [CTORS_SPEC, dict(name='c18l', src='c18_long.cpp', label='custom lexer with 5 terms answering lengths 1..200000 (one-dimensional sweep): slices, positions and match() requests'),
          dict(name='c18p', src='c05_dsl.cpp', args=[6, 'custom'], label='custom terms carrying precedence and associativity (also left/right associativity at precedence 0) against their char-term twins under the generated lexer, inputs<=6')], deadline_s)
     rep.coverage = merge_cov(cov, {'states': totals['cases'], 'transitions': totals['checks'], 'traces_validated_against_impl': totals['cases'], 'samples': samples, 'evaluations': totals['cases'], 'distinct_nontrivial': totals['cases'], 'bounds': bounds,
                                    'exhaustive': all(b['completed'] for b in bounds), 'rule': 'Compiled part (one-dimensional sweep, not exhaustive): a 5-term custom lexer whose answers have lengths 1, 255..257, 65534..65537, 70000, 131071, 131072, 200000 (single-line and multi-line lexemes, up to 70000 statements): every term must reach its functor with exactly the answered slice and its true line/column, and match() must be requested exactly at the term starts with the true source point.'})
@@ -763,7 +765,7 @@ def run_c18(pid, tier, rep, deadline_s):
 def run_c09(pid, tier, rep, deadline_s):
     q = tier == 'quick'
     run_gram(pid, tier, rep, deadline_s); cov = dict(rep.coverage)
-    totals, samples, bounds, extra = run_progs(pid, rep, [dict(name='c09m', src='c09_messages.cpp', args=[4 if q else 5], compilers=['g++'] if q else ['g++', 'clang++'], label='compiled grammar with every kind of term (regex with/without custom name, string, typed, char, non-printable char) x inputs<=%d over 10 bytes' % (4 if q else 5))], deadline_s)
+    totals, samples, bounds, extra = run_progs(pid, rep, [CTORS_SPEC, dict(name='c09m', src='c09_messages.cpp', args=[4 if q else 5], compilers=['g++'] if q else ['g++', 'clang++'], label='compiled grammar with every kind of term (regex with/without custom name, string, typed, char, non-printable char) x inputs<=%d over 10 bytes' % (4 if q else 5))], deadline_s)
     rep.coverage = merge_cov(cov, {'states': totals['cases'], 'transitions': totals['checks'], 'traces_validated_against_impl': totals['cases'], 'samples': samples, 'evaluations': totals['cases'], 'distinct_nontrivial': extra.get('lexical_errors', 0) + extra.get('syntax_errors', 0), 'bounds': bounds,
                                    'exhaustive': all(b['completed'] for b in bounds), 'counters': extra, 'rule': 'Compiled part: one grammar whose terms cover every term kind and naming rule, on every input up to the bound over its bytes plus space, newline and a foreign byte; the message stream must be exactly what the documented driver on a reference table predicts (term names, positions, single report, silence on success).'})
 
